@@ -366,7 +366,7 @@ static void visit_orders(const hist_t *h, void *arg_)
 static void leg_orders(int slice, int nslices, void *arg_)
 {
     leg_arg_t *la = (leg_arg_t *)arg_;
-    parsec_context_t *parsec = g_ctx ? g_ctx : init_ctx(1, NULL); use_hsched = 1;   /* g_ctx: initialised once by the parent (1 stream, no threads) and inherited */
+    parsec_context_t *parsec = init_ctx(1, NULL); use_hsched = 1;
     hs_install(parsec); hs_module.module.select = c06_select;
     vis_t v = { slice, nslices, (hs_explorer_t *)malloc(sizeof(hs_explorer_t)), la, 0 };
     gen_t *g = (gen_t *)malloc(sizeof(gen_t));
@@ -395,7 +395,6 @@ static void leg_threads(int slice, int nslices, void *arg_)
 {
     (void)nslices; leg_arg_t la = *(leg_arg_t *)arg_;
     la.threads = TH[slice % 3]; la.sched = SCHEDS[slice / 3];
-    if (g_ctx) { parsec_current_scheduler = NULL; parsec_fini(&g_ctx); }      /* the one-stream context inherited from the parent */
     parsec_context_t *parsec = init_ctx(la.threads, la.sched); use_hsched = 0;
     vis_t v = { 0, 1, NULL, &la, 0 };
     gen_t *g = (gen_t *)malloc(sizeof(gen_t));
@@ -452,14 +451,13 @@ int main(int argc, char **argv)
     if (wr_replay_file) {
         static char scen[128], cas[WR_CASELEN];
         if (wr_read_replay(wr_replay_file, scen, sizeof(scen), cas, sizeof(cas))) { fprintf(stderr, "cannot read replay file\n"); return 2; }
-        wr_run_legs("replay", 1, leg_replay, cas, 30, NULL);
+        wr_run_legs("replay", 1, leg_replay, cas, 60, NULL);
         return wr_finish();
     }
     /* leg "orders": plan = list of len:kinds:lo ; lo (histories of length <= lo were covered by an earlier, complete entry) */
     if (!only || !strcmp(only, "orders")) {
         char pl[256]; snprintf(pl, sizeof(pl), "%s", plan); int all_exh = 1;
         if (full_deadline > 0 && (!only || strcmp(only, "orders"))) wr_deadline = full_deadline - 0.2 * (full_deadline - wr_now());   /* keep 20% for the threads leg */
-        init_ctx(1, NULL);       /* once, in the parent: the forked workers inherit the initialised one-stream context */
         for (char *t = strtok(pl, ","); t; t = strtok(NULL, ",")) {
             int n = 0, lo = 0; static char kd[8][8]; static int ki = 0; char *k = kd[ki++ % 8];
             if (sscanf(t, "%d:%7[a-d]:%d", &n, k, &lo) < 2) { fprintf(stderr, "bad plan entry %s\n", t); return 2; }
